@@ -16,4 +16,6 @@ HARNESSES += [h for h in _load("C06").seek_harnesses()]
 HARNESSES += [h for h in _load("C17").HARNESSES if h.name.startswith("cmd.SFC_SET") or h.name in ("cmd.SFC_UPDATE_HEADER_NOW", "cmd.SFC_FILE_TRUNCATE") or h.name.startswith("metarefuse.")]
 # a failing open through the real entry points returns NULL, sets the global error, closes only what it owns
 HARNESSES += [h for h in _load("C14").HARNESSES if h.name.startswith("open_entry.")]
+# a write open with an unusable sample rate (0, negative) is refused, never a fault
+HARNESSES += [h for h in _load("C10").HARNESSES if h.name.startswith("open_sr.")]
 META = {"assumptions": ["I_open"], "outside": ["failed sf_open leaves nothing behind: see C16"]}
